@@ -84,8 +84,38 @@ func (s *stampFns) isCall(v ssa.Value) bool {
 	return g != nil && s.ok[g]
 }
 
-// fresh: v is a clock value read now, or the result of a stamp function.
-func (s *stampFns) fresh(v ssa.Value) bool { return isClockValue(v) || s.isCall(v) }
+// fresh: v is a clock value read now, or the result of a stamp function — possibly chosen between several of those (φ)
+// or handed down through parameters (a constructor taking the stamp): then every call site must pass a fresh stamp.
+func (s *stampFns) fresh(v ssa.Value) bool { return s.freshN(v, 6, map[ssa.Value]bool{}) }
+
+func (s *stampFns) freshN(v ssa.Value, budget int, seen map[ssa.Value]bool) bool {
+	v = core.Strip(v)
+	if isClockValue(v) || s.isCall(v) {
+		return true
+	}
+	if budget <= 0 || seen[v] {
+		return false
+	}
+	seen[v] = true
+	switch x := v.(type) {
+	case *ssa.Phi:
+		for _, e := range x.Edges {
+			if !s.freshN(e, budget-1, seen) {
+				return false
+			}
+		}
+		return len(x.Edges) > 0
+	case *ssa.Parameter:
+		args := callerArgs(x)
+		for _, a := range args {
+			if !s.freshN(a, budget-1, seen) {
+				return false
+			}
+		}
+		return len(args) > 0
+	}
+	return false
+}
 
 // stampContract decides the contract of one candidate; "" when it holds.
 func (c *Ctx) stampContract(s *stampFns, f *ssa.Function) string {
@@ -304,7 +334,7 @@ func (c *Ctx) ruleLocalWritesMonotone(id string, d *dstate) {
 						continue
 					}
 					nStamp++
-					if !sf.isCall(st.Val) {
+					if !sf.fresh(st.Val) || isClockValue(st.Val) {
 						bad = fmt.Sprintf("the store is overwritten unconditionally (%s) and the %s stamp set at %s is %s, not the result of a stamp function applied to the entry being replaced", unguarded, want, c.whereI(st), short(core.Term(st.Val), 50))
 						continue
 					}
